@@ -15,7 +15,7 @@ from .core import Sx, SymBool, NotEncodable, cur
 
 newaxis = None
 nan = float('nan')   # replaced below by the NaN singleton
-inf = float('inf')
+inf = float('inf')   # replaced below by the INF element
 e = None             # set lazily (np.e) -- not exact
 
 
@@ -69,6 +69,21 @@ class _Uninit(_NaN):
 
 
 UNINIT = _Uninit()
+
+
+class _Inf(_NaN):
+    """+/- infinity: not finite, not NaN; arithmetic on it is absorbing (any result is non-finite)."""
+    _inst = None
+
+    def __repr__(self):
+        return 'INF'
+
+    def __float__(self):
+        return float('inf')
+
+
+INF = _Inf()
+inf = INF
 
 
 class SymArray(_np.ndarray):
@@ -189,7 +204,7 @@ def _ex(v):
         if v != v:
             return NaN
         if v in (float('inf'), float('-inf')):
-            raise NotEncodable('infinite value')
+            return INF
         f = Fraction(v)
         return int(f) if f.denominator == 1 else f
     if isinstance(v, (complex, _np.complexfloating)):
@@ -423,7 +438,7 @@ def _el_imag(v):
 
 
 def _el_isnan(v):
-    return isinstance(v, _NaN)
+    return isinstance(v, _NaN) and not isinstance(v, _Inf)
 
 
 def _el_isfinite(v):
